@@ -1548,7 +1548,7 @@ func c15EngineProbe(r *hx.Result) {
 }
 
 func runC15(r *hx.Result, rng *hx.Rng, thorough bool, replay string) error {
-	r.Rule = "evaluation = one codec call pair (encode+decode, or one compared pair of values/rows, or one decode of a mutated encoding) checked against the Lean model byte for byte; nontrivial = distinct operands / non-NULL value / mutated input"
+	r.Rule = "evaluation = one codec call pair (encode+decode, or one compared pair of values/rows, or one decode of a mutated encoding, or one ExportTx of a committed transaction of a real store) checked against the Lean model byte for byte; nontrivial = distinct operands / non-NULL value / mutated input"
 	rounds := 2
 	if thorough {
 		rounds = 8
@@ -1570,10 +1570,16 @@ func runC15(r *hx.Result, rng *hx.Rng, thorough bool, replay string) error {
 		if err := r.Flush(); err != nil {
 			return err
 		}
+		c15ExportPart(r, rng.Fork(), thorough, round) // c15export.go: ExportTx / ReplicateTx framing on real stores
+		if err := r.Flush(); err != nil {
+			return err
+		}
 	}
 	c15EngineProbe(r)
 	// distribution sanity: a collapsed generator is inconclusive, not a pass
-	for _, k := range []string{"pair.float64.negzero", "pair.float64.nan", "pair.timestamp.ts-out-of-nano-range", "pair.varchar.ok", "pair.integer.ok", "hdr.dec.ok", "txmd.enc.ok", "kvmd.dec.ok"} {
+	for _, k := range []string{"pair.float64.negzero", "pair.float64.nan", "pair.timestamp.ts-out-of-nano-range", "pair.varchar.ok", "pair.integer.ok", "hdr.dec.ok", "txmd.enc.ok", "kvmd.dec.ok",
+		"xp.tx.order.metadata-then-none", "xp.tx.order.none-then-metadata", "xp.tx.order.metadata-then-different-metadata", "xp.tx.mdmix.3+kinds",
+		"xp.export.with-values", "xp.export.by-digest", "xp.replicate.ok", "xp.store.v0.embedded", "xp.store.v1.vlog"} {
 		if r.Distribution[k] == 0 {
 			r.Inconclusive = append(r.Inconclusive, "generator never produced class "+k)
 		}
@@ -1581,6 +1587,7 @@ func runC15(r *hx.Result, rng *hx.Rng, thorough bool, replay string) error {
 	r.Notes = append(r.Notes,
 		"KVMetadata.unsafeReadFrom reached through go:linkname (pure function, no /repo hook)",
 		"sql.Timestamp values built through reflection (no exported constructor)",
-		"JSON values and implicit conversions (raw Go type != column type) are outside the model and not generated")
+		"JSON values and implicit conversions (raw Go type != column type) are outside the model and not generated",
+		"export part (c15export.go): stores opened with 64 KB write buffers; truncation of a tx is observed through ReadValue (io.EOF), expired entries through the stored value hash")
 	return nil
 }
